@@ -43,7 +43,7 @@ class CheckC18(core.Check):
     def _ops(self):
         rnd = random.Random(self.seed * 256203161 + 18)
         quick = self.tier == "quick"
-        mul = 6 if quick else 60
+        mul = 20 if quick else 400
         ops = []  # (op, kwargs, expect-spec)
         for hn in HASHES:
             bl = prims.blocklen(hn)
